@@ -118,7 +118,7 @@ def gen_scale(rng):
 def gen_cases(tier, seed):
     for i in range(4 if tier == 'quick' else 64):
         yield gen_scale(random.Random(f'C05/scale/{seed}/{tier}/{i}'))
-    n = 1500 if tier == 'quick' else 16 * 5000
+    n = 4000 if tier == 'quick' else 16 * 5000
     for i in range(n):
         yield gen_one(random.Random(f'C05/{seed}/{tier}/{i}'), tier)
 
